@@ -62,7 +62,8 @@ def us_value(draw):
 
 @st.composite
 def prop(draw):
-    name = draw(st.one_of(st.sampled_from(['p', 'q', 'unit_string', 'wf_increment', 'NI_x', '']), NAMES))
+    name = draw(st.one_of(st.sampled_from(['p', 'q', 'unit_string', 'wf_increment', 'NI_x', '', 'name', 'path', 'wf_start_time',
+                                            'wf_samples', 'P']), NAMES))
     kind = draw(st.sampled_from(['int', 'int', 'float', 'bool', 'npbool', 'str', 'datetime', 'dt64:us', 'dt64:ms',
                                  'dt64:s', 'dt64:ns', 'tdmsts', 'np', 'wrap']))
     if kind == 'int':
